@@ -3,6 +3,11 @@
   * `a == b` / `a != b`: a constant operand goes to the right; two non-constant operands are ordered by their text;
   * `x = x <op> e`  becomes  `x <op>= e`  (for names, attributes and subscripts).
 
+  * `if c: ...; return  else: REST`  becomes  `if c: ...; return` followed by REST (an `else` after a body that always leaves --
+    return / raise / continue / break -- is the same program as the flat form; `elif` chains are left alone).
+
+  * a plain f-string `f'a{x}b'` (no conversion, no format spec, no braces in the literal parts) becomes `'a{}b'.format(x)`.
+
 Nothing else is touched.  Line numbers are kept."""
 import ast
 
@@ -27,6 +32,24 @@ class _Norm(ast.NodeTransformer):
                 node.left, node.comparators = r, [l]
         return node
 
+    def visit_JoinedStr(self, node):
+        self.generic_visit(node)
+        fmt, args = "", []
+        for v in node.values:
+            if isinstance(v, ast.Constant) and isinstance(v.value, str):
+                if "{" in v.value or "}" in v.value:
+                    return node
+                fmt += v.value
+            elif isinstance(v, ast.FormattedValue) and v.conversion == -1 and v.format_spec is None:
+                fmt += "{}"
+                args.append(v.value)
+            else:
+                return node
+        if not args:
+            return node
+        new = ast.Call(func=ast.Attribute(value=ast.Constant(value=fmt), attr="format", ctx=ast.Load()), args=args, keywords=[])
+        return ast.copy_location(new, node)
+
     def visit_Assign(self, node):
         self.generic_visit(node)
         if len(node.targets) == 1 and isinstance(node.targets[0], (ast.Name, ast.Attribute, ast.Subscript)) and \
@@ -37,7 +60,29 @@ class _Norm(ast.NodeTransformer):
         return node
 
 
+def _leaves(body):
+    return bool(body) and isinstance(body[-1], (ast.Return, ast.Raise, ast.Continue, ast.Break))
+
+
+def _flatten_else(tree):
+    for parent in ast.walk(tree):
+        for fld in ("body", "orelse", "finalbody"):
+            lst = getattr(parent, fld, None)
+            if not isinstance(lst, list):
+                continue
+            i = 0
+            while i < len(lst):
+                st = lst[i]
+                if isinstance(st, ast.If) and st.orelse and _leaves(st.body) and not (len(st.orelse) == 1 and isinstance(st.orelse[0], ast.If)) \
+                        and not (fld == "orelse" and isinstance(parent, ast.If) and len(lst) == 1):
+                    rest = st.orelse
+                    st.orelse = []
+                    lst[i + 1:i + 1] = rest
+                i += 1
+
+
 def normalise(tree):
     _Norm().visit(tree)
+    _flatten_else(tree)
     ast.fix_missing_locations(tree)
     return tree
